@@ -26,13 +26,35 @@ import (
 var families = []string{"steady", "reset-after-k", "neverack-restart", "refuse-then-recover", "late-ack", "stop-with-pending-acks",
 	"stop-mid-chunk", "restarts-in-a-row", "wrong-id", "two-outputs-one-faulty", "overflow", "session-renewal", "label-tuples", "interrupted-recovery"}
 
+// extraTransforms: a SECOND transform reporting under a label that an earlier transform already uses ("redacted": e-mail
+// addresses in the source field, record kind srcmail), followed by one more label that no record ever causes ("never"). The
+// labelled counters are per label, not per transform: events of the second transform belong to "redacted" (seeded c19-s6 counted
+// them under whichever label was registered next).
+const extraTransforms = `  - type: redactEmail
+    key: source
+    metricLabel: redacted
+  - type: drop
+    match:
+      class: NEVERSEEN
+    percentage: 100
+    metricLabel: never
+`
+
 func buildScenarios(c *vkit.Ctx) []e2e.Scenario {
+	out := buildScenarios0(c)
+	for i := range out {
+		out[i].ExtraConfig = extraTransforms
+	}
+	return out
+}
+
+func buildScenarios0(c *vkit.Ctx) []e2e.Scenario {
 	var out []e2e.Scenario
 	n := c.N(26, 200)
 	for i := 0; i < n; i++ {
 		r := c.Rand("scenario", i)
 		fam := families[i%len(families)]
-		opt := e2e.Opt{Kinds: []string{"plain", "plain", "drop", "email", "badtime", "malformed", "esc"}}
+		opt := e2e.Opt{Kinds: []string{"plain", "plain", "drop", "email", "badtime", "malformed", "esc", "srcmail"}}
 		if fam == "label-tuples" {
 			// metric-key tuples whose concatenations coincide, empty-free, with separators
 			sc := e2e.GenScenario(r, "steady", i, opt)
@@ -125,8 +147,8 @@ func Judge(obs *e2e.Obs) (fs []finding, info map[string]int) {
 		type tup struct{ app, level, keys string }
 		passed, droppedT := map[tup]int{}, map[tup]int{}
 		passedB, droppedB := map[tup]int{}, map[tup]int{}
-		lab := map[string]map[tup]int{"filtered": {}, "timeError": {}, "redacted": {}}
-		labB := map[string]map[tup]int{"filtered": {}, "timeError": {}, "redacted": {}}
+		lab := map[string]map[tup]int{"filtered": {}, "timeError": {}, "redacted": {}, "never": {}}
+		labB := map[string]map[tup]int{"filtered": {}, "timeError": {}, "redacted": {}, "never": {}}
 		for _, cs := range gs.Conns {
 			for _, r := range cs.Recs {
 				l := len(r.Line())
@@ -160,7 +182,7 @@ func Judge(obs *e2e.Obs) (fs []finding, info map[string]int) {
 						lab["timeError"][t]++
 						labB["timeError"][t] += l
 					}
-					if r.Kind == "email" {
+					if r.Kind == "email" || r.Kind == "srcmail" {
 						lab["redacted"][t]++
 						labB["redacted"][t] += l
 					}
@@ -388,6 +410,7 @@ func childMain(c *vkit.Ctx) {
 	var sc e2e.Scenario
 	if only := c.Arg("only"); only != "" {
 		_ = json.Unmarshal([]byte(only), &sc)
+		sc.ExtraConfig = extraTransforms // not part of the serialized scenario
 	} else {
 		sc = buildScenarios(c)[idx]
 	}
